@@ -161,6 +161,15 @@ def expand_limit_case(c):
         r = {"t": "fsresp", "action": action, "status": 0, "n1": "a" * a, "n2": ("b" * b) if c["second"] else "", "msg": "5a" * m}
         before = [{"t": "fsresp", "action": 0, "status": 1, "n1": "x", "n2": "", "msg": ""}] if c["lead"] else []
         return {"kind": "finished", "conf": conf, "cc": 0, "delivery": 1, "status": 2, "responses": before + [r] + before, "fault": None}
+    if k == "many_elements":
+        # thousands of minimal list elements: each filestore response is 5 octets, each empty flow label 2, each segment request 8 / 16
+        n = c["n"]
+        if c["what"] == "finished":
+            return {"kind": "finished", "conf": conf, "cc": 4, "delivery": 0, "status": 1, "responses": [{"t": "fsresp", "action": i % 2, "status": 0, "n1": "", "n2": "", "msg": ""} for i in range(n)],
+                    "fault": "0a0b" if c.get("fault") else None}
+        if c["what"] == "metadata":
+            return {"kind": "metadata", "conf": conf, "closure": False, "cktype": 0, "size": 0, "src_name": "a", "dst_name": "b", "options": [{"t": "flow", "v": ""} for _ in range(n)]}
+        return {"kind": "nak", "conf": conf, "start": 0, "end": 1, "segs": [[i, i + 1] for i in range(n)]}
     if k == "metadata_long":
         opts = [{"t": "flow", "v": "11" * c["opt"]}, {"t": "msg", "v": "22" * 255}] if c["opt"] is not None else None
         return {"kind": "metadata", "conf": conf, "closure": True, "cktype": 1, "size": 1, "src_name": "s" * c["src"], "dst_name": "d" * c["dst"], "options": opts}
@@ -183,6 +192,11 @@ def enum_limits(tier, shard, nshards, rng):
         cases.append({"k": "metadata_long", "conf": conf, "src": 255, "dst": 255, "opt": 255})
         cases.append({"k": "metadata_long", "conf": conf, "src": 254, "dst": 255, "opt": None})
         cases.append({"k": "metadata_long", "conf": conf, "src": 127, "dst": 128, "opt": 0})
+    for conf in confs[:2] + confs[-1:]:
+        cases.append({"k": "many_elements", "conf": conf, "what": "finished", "n": 3000, "fault": True})
+        cases.append({"k": "many_elements", "conf": conf, "what": "finished", "n": 1200, "fault": False})
+        cases.append({"k": "many_elements", "conf": conf, "what": "metadata", "n": 5000})
+        cases.append({"k": "many_elements", "conf": conf, "what": "nak", "n": 2500})
     for i, c in enumerate(cases):
         if i % nshards == shard:
             yield c
@@ -241,7 +255,7 @@ CLAUSES = [
         enum=enum_limits,
         check=check_limits,
         classify=lambda c: [c["k"]] + (["crc on"] if c["conf"]["crc"] else ["crc off"]) + (["large file"] if c["conf"]["large"] else []),
-        required=["nak_max", "finished_fsresp_len", "metadata_long", "crc on", "large file"],
+        required=["nak_max", "finished_fsresp_len", "metadata_long", "many_elements", "crc on", "large file"],
         shards={"quick": 8, "thorough": 16},
         exhaustive_note="all listed limit cases x {CRC on/off} x {32/64-bit sizes} x 2 (quick) / 3 (thorough) id/sequence width pairs",
     ),
